@@ -20,6 +20,12 @@ type A struct {
 	E
 }
 
+//«s13»
+type A2 struct {
+	//«s14»
+	named int
+}
+
 //«s2»
 type (
 	B struct {
@@ -54,7 +60,20 @@ const C = 1
 type Trail struct{} //«s10»
 `
 
-var c15bAlts = []string{" @immutable", " @constructor New, Make", " @testonly", " @packageonly w", " @mutable", " @implements &pk.Iface", " plain", " see @immutable", " @Immutable", " @immutablex", " @test only", " @ mutable"}
+var c15bAlts = []string{" @immutable", " @constructor New, Make", " @testonly", " @packageonly w", " @mutable", " @implements &pk.Iface", " plain", " see @immutable", " @Immutable", " @immutablex", " @test only", " @ mutable",
+	// accepted annotations whose ignored trailing text mentions other keywords
+	" @testonly not an @immutable one", " @immutable (was @constructor N)", " @packageonly w or @testonly", " @mutable unlike @immutable", " @constructor New, Make @implements X"}
+
+// the keyword a comment spelling is an annotation of ("" if it is none) — from the documented grammar
+func c15bKeyword(alt string) string {
+	for _, k := range []string{"immutable", "constructor", "testonly", "packageonly", "mutable", "implements"} {
+		p := " @" + k
+		if len(alt) >= len(p) && alt[:len(p)] == p && (len(alt) == len(p) || alt[len(p)] == ' ') {
+			return k
+		}
+	}
+	return ""
+}
 
 type c15bSite struct {
 	name string
@@ -65,23 +84,50 @@ type c15bSite struct {
 var c15bSites = []c15bSite{
 	{"s1", "type", "A"}, {"s2", "type", "B"}, {"s3", "func", "F"}, {"s4", "method", "M"},
 	{"s5", "field", "named"}, {"s6", "inert", ""}, {"s7", "inert", ""}, {"s8", "inert", ""}, {"s9", "inert", ""},
-	{"s10", "inert", ""}, {"s11", "inert", ""}, {"s12", "inert", ""},
+	{"s10", "inert", ""}, {"s11", "inert", ""}, {"s12", "inert", ""}, {"s13", "type", "A2"}, {"s14", "field", "named"},
 }
 
 // ZZC15bAttachment: a comment (any annotation keyword or near-miss) at any of 12 sites of a file, any two sites at a
 // time: annotations are produced exactly at the effective sites — doc of a top-level type (or of its type(...) group),
 // doc of a top-level func/method for @testonly/@packageonly, doc of a named field of an @immutable struct for @mutable.
-func ZZC15bAttachment() {
+func ZZC15bAttachment() { c15bAttachment(2, nil) }
+
+// ZZC15bMutablePairs: the docs of two structs and of their same-named fields, all four arbitrary at once
+// (two @immutable structs each with a @mutable field of the same name, and every other combination).
+func ZZC15bMutablePairs() { c15bAttachment(4, []string{"s1", "s5", "s13", "s14"}) }
+
+func c15bAttachment(maxNonPlain int, only []string) {
 	holes := []nd.Hole{}
 	vals := map[string]string{}
 	nonPlain := 0
+	width0 := 0
+	for _, a := range c15bAlts {
+		if len(a) > width0 {
+			width0 = len(a)
+		}
+	}
 	for _, s := range c15bSites {
+		symbolic := only == nil
+		for _, o := range only {
+			if o == s.name {
+				symbolic = true
+			}
+		}
+		if !symbolic {
+			pl := " plain"
+			for len(pl) < width0 {
+				pl += " "
+			}
+			vals[s.name] = pl
+			holes = append(holes, nd.Hole{Name: s.name, Value: pl})
+			continue
+		}
 		v := nd.EnumPad(s.name, c15bAlts...)
 		vals[s.name] = v
 		holes = append(holes, nd.Hole{Name: s.name, Value: v})
 		nonPlain += nd.IteInt(nd.HasPrefix(v, " plain"), 0, 1)
 	}
-	nd.Assume(nonPlain <= 2) // stated bound: at most two non-plain comments at a time (all pairs of sites)
+	nd.Assume(nonPlain <= maxNonPlain) // stated bound on simultaneously non-plain comments
 	prog := nd.LoadProgram([]nd.File{{Pkg: "zzmod/d", Name: "d.go", Src: c15bSrc}}, holes)
 	var raw []analysis.Diagnostic
 	pass := NewPass(prog, "zzmod/d", Facts{}, &raw)
@@ -96,21 +142,30 @@ func ZZC15bAttachment() {
 			width = len(a)
 		}
 	}
-	is := func(site, alt string) bool {
-		for len(alt) < width {
-			alt += " "
+	// is(site, " @keyword ..."): the comment at the site is an annotation with that keyword (whatever follows it)
+	is := func(site, altPrefix string) bool {
+		want := c15bKeyword(altPrefix)
+		r := false
+		for _, alt := range c15bAlts {
+			if c15bKeyword(alt) == want && want != "" {
+				padded := alt
+				for len(padded) < width {
+					padded += " "
+				}
+				r = nd.Or(r, vals[site] == padded)
+			}
 		}
-		return vals[site] == alt
+		return r
 	}
 	count := func(c bool) int { return nd.IteInt(c, 1, 0) }
 	// expected numbers of annotations of each kind
-	wantImm := count(is("s1", " @immutable")) + count(is("s2", " @immutable"))
-	wantCtor := count(is("s1", " @constructor New, Make")) + count(is("s2", " @constructor New, Make"))
-	wantImpl := count(is("s1", " @implements &pk.Iface")) + count(is("s2", " @implements &pk.Iface"))
-	wantTest := count(is("s1", " @testonly")) + count(is("s2", " @testonly")) + count(is("s3", " @testonly")) + count(is("s4", " @testonly"))
-	wantPkg := count(is("s1", " @packageonly w")) + count(is("s2", " @packageonly w")) + count(is("s3", " @packageonly w")) + count(is("s4", " @packageonly w"))
+	wantImm := count(is("s1", " @immutable")) + count(is("s2", " @immutable")) + count(is("s13", " @immutable"))
+	wantCtor := count(is("s1", " @constructor New, Make")) + count(is("s2", " @constructor New, Make")) + count(is("s13", " @constructor New, Make"))
+	wantImpl := count(is("s1", " @implements &pk.Iface")) + count(is("s2", " @implements &pk.Iface")) + count(is("s13", " @implements &pk.Iface"))
+	wantTest := count(is("s1", " @testonly")) + count(is("s2", " @testonly")) + count(is("s3", " @testonly")) + count(is("s4", " @testonly")) + count(is("s13", " @testonly"))
+	wantPkg := count(is("s1", " @packageonly w")) + count(is("s2", " @packageonly w")) + count(is("s3", " @packageonly w")) + count(is("s4", " @packageonly w")) + count(is("s13", " @packageonly w"))
 	// @mutable only on the named field of a struct whose own doc carries @immutable
-	wantMut := count(nd.And(is("s5", " @mutable"), is("s1", " @immutable"))) + count(nd.And(is("s6", " @mutable"), is("s2", " @immutable")))
+	wantMut := count(nd.And(is("s5", " @mutable"), is("s1", " @immutable"))) + count(nd.And(is("s6", " @mutable"), is("s2", " @immutable"))) + count(nd.And(is("s14", " @mutable"), is("s13", " @immutable")))
 	nd.Assert(len(ann.ImmutableAnnotations) == wantImm, "@immutable only as doc of a top-level type declaration")
 	nd.Assert(len(ann.ConstructorAnnotations) == wantCtor, "@constructor only as doc of a top-level type declaration")
 	nd.Assert(len(ann.ImplementsAnnotations) == wantImpl, "@implements only as doc of a top-level type declaration")
@@ -118,20 +173,21 @@ func ZZC15bAttachment() {
 	nd.Assert(len(ann.PackageOnlyAnnotations) == wantPkg, "@packageonly only as doc of a top-level type/func/method")
 	nd.Assert(len(ann.MutableAnnotations) == wantMut, "@mutable only as doc of a named field of an @immutable struct")
 	for _, a := range ann.ImmutableAnnotations {
-		nd.Assert(nd.Or(nd.And(a.OnType == "A", is("s1", " @immutable")), nd.And(a.OnType == "B", is("s2", " @immutable"))), "@immutable attached to the documented type")
+		nd.Assert(nd.Or(nd.And(a.OnType == "A", is("s1", " @immutable")), nd.And(a.OnType == "B", is("s2", " @immutable")), nd.And(a.OnType == "A2", is("s13", " @immutable"))), "@immutable attached to the documented type")
 	}
 	for _, a := range ann.ConstructorAnnotations {
-		nd.Assert(nd.And(len(a.ConstructorNames) == 2, nd.Or(a.OnType == "A", a.OnType == "B")), "@constructor value")
+		nd.Assert(nd.And(len(a.ConstructorNames) == 2, nd.Or(a.OnType == "A", a.OnType == "B", a.OnType == "A2")), "@constructor value")
 	}
 	for _, a := range ann.TestonlyAnnotations {
 		ok := nd.Or(
 			nd.And(a.Kind == annotations.TestOnlyOnType, a.ObjectName == "A", is("s1", " @testonly")),
 			nd.And(a.Kind == annotations.TestOnlyOnType, a.ObjectName == "B", is("s2", " @testonly")),
+			nd.And(a.Kind == annotations.TestOnlyOnType, a.ObjectName == "A2", is("s13", " @testonly")),
 			nd.And(a.Kind == annotations.TestOnlyOnFunc, a.ObjectName == "F", is("s3", " @testonly")),
 			nd.And(a.Kind == annotations.TestOnlyOnMethod, a.ObjectName == "M", a.ReceiverType == "A", is("s4", " @testonly")))
 		nd.Assert(ok, "@testonly attached to the documented item with the right kind")
 	}
 	for _, a := range ann.MutableAnnotations {
-		nd.Assert(nd.Or(nd.And(a.OnType == "A", a.FieldName == "named"), nd.And(a.OnType == "B", a.FieldName == "plain")), "@mutable attached to the documented field")
+		nd.Assert(nd.Or(nd.And(a.OnType == "A", a.FieldName == "named"), nd.And(a.OnType == "B", a.FieldName == "plain"), nd.And(a.OnType == "A2", a.FieldName == "named")), "@mutable attached to the documented field")
 	}
 }
